@@ -1,8 +1,8 @@
 package main
 
 import (
-	"go/types"
 	"go/token"
+	"go/types"
 	"strings"
 
 	"golang.org/x/tools/go/ssa"
@@ -14,8 +14,8 @@ const s5Pkg = "pkg/socks5"
 
 func propC11() *Property {
 	return &Property{
-		ID:      "C11",
-		Decides: "R11.1 with ingress credentials configured, handleAuthentication returns nil only through the edge on which a configured user AND its password compared equal to what the client sent; R11.2 with none configured, it never selects username/password nor reports sub-negotiation success, and returns nil only after selecting no-auth; R11.3 the server reads the request / the client dials and forwards only after handleAuthentication()==nil on the side that owns authentication, and the two sides test ClientSideAuthentication with opposite polarity; R11.4 the client daemon wires socks5Authentication into IngressCredentials (user to User, password to Password) with ClientSideAuthentication=true and cannot start the HTTP proxy when credentials exist.",
+		ID:         "C11",
+		Decides:    "R11.1 with ingress credentials configured, handleAuthentication returns nil only through the edge on which a configured user AND its password compared equal to what the client sent; R11.2 with none configured, it never selects username/password nor reports sub-negotiation success, and returns nil only after selecting no-auth; R11.3 the server reads the request / the client dials and forwards only after handleAuthentication()==nil on the side that owns authentication, and the two sides test ClientSideAuthentication with opposite polarity; R11.4 the client daemon wires socks5Authentication into IngressCredentials (user to User, password to Password) with ClientSideAuthentication=true and cannot start the HTTP proxy when credentials exist.",
 		NotDecided: "string comparison timing; credentials longer than 255 bytes; behaviour of the bytes.Equal/== operators themselves.",
 		Rules: []Rule{
 			{ID: "R11.1", Floor: 1, Text: "handleAuthentication, assuming len(IngressCredentials)>0: no `return nil` is reachable unless the credential-match edge (User == user && Password == password) is taken", Run: r11_1},
@@ -588,7 +588,6 @@ func r11_4(c *RC) {
 		c.OKH("http-proxy-exclusion", goHTTP.Pos(), "credentials configured: the HTTP proxy goroutine is reachable only past log.Fatalf")
 	}
 }
-
 
 // credMatchHelper: fn returns true only on the edge where a configured
 // credential's User equals one parameter and its Password equals another
